@@ -1,0 +1,11 @@
+//go:build verif
+
+// Contracts for hand-written helpers of package ent, checked by /verif/govc.
+// This file holds comments only; it is compiled only with the "verif" tag.
+
+package ent
+
+// The SQL dialect of the driver under a transaction: a read-only property of the connection.
+//@ func (*Tx).Dialect(tx) (result)
+//@   trusted
+//@   modifies nothing
